@@ -51,6 +51,30 @@ def main():
     demos = [f for f in os.listdir(vdir) if f.endswith('.go')]
     meta = {'id': name, 'property': prop, 'source': 'independent sub-agent (given only the property text and a scratch worktree)', 'confirmed_on': time.strftime('%Y-%m-%d %H:%M UTC', time.gmtime())}
     sh('git checkout -q -- . && git clean -fdq')
+    if '--recheck' in sys.argv:
+        # only re-run the checks against the already confirmed patch and refresh meta.json
+        meta = json.load(open(os.path.join(dest, 'meta.json')))
+        patch = os.path.join(dest, 'patch.diff')
+        rc, out = sh(f'git apply {patch}')
+        if rc != 0:
+            print('PATCH DOES NOT APPLY', out)
+            return 2
+        det = meta.get('checks_quick', {})
+        for ck in checks:
+            t0 = time.time()
+            rc, out = sh(f'VERIF_REPO={WT} VERIF_EVIDENCE_DIR=/verif/.work/evidence-eval /verif/run.sh {ck} quick', cwd='/verif')
+            sigs = re.findall(r'^  signature: (.*)$', out, re.M)
+            det[ck] = {'exit': rc, 'detected': rc == 1, 'signatures': sigs[:6], 'n_signatures': len(sigs), 'wall_s': round(time.time() - t0, 1)}
+            print(f'check {ck}: exit {rc} signatures {len(sigs)} {sigs[:2]}')
+            if rc == 2:
+                print(out[-1500:])
+        meta['checks_quick'] = det
+        meta['detected_by'] = sorted(k for k, v in det.items() if v['detected'])
+        meta['rechecked_on'] = time.strftime('%Y-%m-%d %H:%M UTC', time.gmtime())
+        sh('git checkout -q -- . && git clean -fdq')
+        json.dump(meta, open(os.path.join(dest, 'meta.json'), 'w'), indent=1)
+        print('RECHECKED', name, 'detected by', meta['detected_by'])
+        return 0
     # baseline failing set (cached)
     cache = '/verif/.work/suite_baseline_failures.json'  # shared by all evaluation worktrees (same HEAD)
     head = sh('git rev-parse HEAD')[1].strip()
